@@ -1162,8 +1162,7 @@ def random_phase(chk, applied, layout, seeds, nsteps, conc):
         again = []
         for i, v in verdicts.items():
             chk.impl_traces += 1
-            groups = sum(1 for e in traces[i] if e['ev'] == 'group')
-            chk.case(('trace', layout, todo[i], rep), True)
+            chk.case(('trace', layout, todo[i], rep), any(e['ev'] == 'group' for e in traces[i]))
             if v is None:
                 continue
             sig = trace_signature(traces[i], v[0], v[1])
@@ -1230,10 +1229,10 @@ def run(chk):
         chk.notes.setdefault('generated', {})[cfg + (' (simulated)' if kw else '')] = len(behs)
     for layout, beh in jobs:
         chk.case(json.dumps([layout, inputs(beh)], sort_keys=True), len(beh) > 1)
-    applied = replay_all(chk, jobs, 'tlc behaviours', partial, pristine_every=4 if quick else 1)
+    applied = replay_all(chk, jobs, 'tlc behaviours', partial, pristine_every=4)
     for layout, beh in jobs[len(jobs) // 2:len(jobs) // 2 + 1]:
         chk.sample({'layout': layout, 'behaviour': beh[-1:]})
-    n = 60 if quick else 1500
+    n = 60 if quick else 600
     applied = random_phase(chk, applied, 'AB', [chk.seed * 100003 + i for i in range(n)], 25 if quick else 40, 0.25)
     random_phase(chk, applied, 'A', [chk.seed * 100003 + 50000 + i for i in range(n // 3)], 25 if quick else 40, 0.25)
     chk.exhaustive = False
